@@ -3,11 +3,14 @@
 from __future__ import annotations
 
 import abc
+import collections
 import contextlib
 import datetime
 import decimal
 import enum
 import fractions
+import functools
+import inspect
 import itertools
 import numbers
 import pathlib
@@ -561,6 +564,13 @@ class PatternUnmarshaller(AbstractUnmarshaller[PatternT], tp.Generic[PatternT]):
         return re.compile(decoded)  # type: ignore[return-value]
 
 
+def _factory(origin: tp.Any) -> tp.Callable[[tp.Any], tp.Any]:
+    # A `defaultdict` takes its default factory first - an annotation names none.
+    if inspect.isclass(origin) and issubclass(origin, collections.defaultdict):
+        return functools.partial(origin, None)
+    return origin
+
+
 class CastUnmarshaller(AbstractUnmarshaller[T]):
     """Unmarshaller that converts an input to an instance of `T` with a direct cast.
 
@@ -583,7 +593,7 @@ class CastUnmarshaller(AbstractUnmarshaller[T]):
             var: A variable name for the indicated type annotation (unused, optional).
         """
         super().__init__(t, context, var=var)
-        self.caster: tp.Callable[[tp.Any], T] = self.origin  # type: ignore[assignment]
+        self.caster: tp.Callable[[tp.Any], T] = _factory(self.origin)
 
     def __call__(self, val: tp.Any) -> T:
         """Unmarshal a value into the bound `T` type.
@@ -787,6 +797,7 @@ class SubscriptedMappingUnmarshaller(
     __slots__ = (
         "keys",
         "values",
+        "factory",
     )
 
     def __init__(self, t: type[MappingT], context: ContextT, *, var: str | None = None):
@@ -801,6 +812,7 @@ class SubscriptedMappingUnmarshaller(
         key_t, value_t = inspection.args(t, evaluate=True)
         self.keys = context[key_t]
         self.values = context[value_t]
+        self.factory = _factory(self.origin)
 
     def __call__(self, val: tp.Any) -> MappingT:
         """Unmarshal a value into the bound `MappingT`.
@@ -812,7 +824,7 @@ class SubscriptedMappingUnmarshaller(
         decoded = serdes.load(val)
         keys = self.keys
         values = self.values
-        return self.origin(  # type: ignore[call-arg]
+        return self.factory(
             ((keys(k), values(v)) for k, v in serdes.iteritems(decoded))
         )
 
